@@ -103,7 +103,7 @@ def inputs(ctx):
                                                             {"tc": _tc(b), "drop": drop, "syms": [{"k": "EDM"}]}],
                                 "doubled": doubled, "offset": 0})
                     n += 1
-    for k in range(400 if ctx.quick else 20000):
+    for k in range(400 if ctx.quick else 60000):
         lines = sccgen.popon_program(rng, drop=None)
         # move the program to a random hour
         base = rng.choice([0, 0, rng.randrange(0, 30 * 3600 * 23)])
